@@ -379,6 +379,8 @@ def run_bx(name, strategy, bounds, tier, max_viol=20):
     r.extra = j
     r.obligations = j['evaluations']
     r.discharged = j['evaluations'] - j['violations_total']
+    r.functions = [{'kind': 'fn', 'selector': 'fn %s' % s, 'file': 'truc/src/record/definition/builder/native/variant/%s.rs' % ('dummy' if s.startswith('append') else s), 'line': 0,
+                    'sha256': 'executed natively (linked from /repo)'} for s in (['simple', 'basic', 'append_data', 'append_data_reverse'] if strategy == 'all' else [strategy])]
     r.bounded = ('BOUNDED: every WF pre-state with <= %d data in a %d-byte window over shapes {%s}, every removal '
                  'subset, every sequence of <= %d additions' % (bounds['max_data'], bounds['window'], bounds['shapes'], bounds['max_add']))
     if j['violations_total']:
